@@ -218,6 +218,30 @@ let run_L caseno tk =
   let acc = next_int tk in
   Printf.printf "L %d %s\n" caseno (pr_transcript ["sz"; "tc"] (l_layout t (nat_of_int lay) pat pv (nat_of_int acc)))
 
+(* family Q: prog kind ...; descriptors: ext = t R pat*R ; map = lay pv <ext> ; acc = k base const id ; mds = <map> <acc>; arg = code [t] *)
+let run_Q caseno tk =
+  let _prog = next_int tk in
+  let ni tk = nat_of_int (next_int tk) in
+  let r_ext tk = let t = ity_of_nat (ni tk) in let r = next_int tk in let pat = take_n tk r (fun tk -> opt_of_tok (next tk)) in { x_t = t; x_pat = pat } in
+  let r_map tk = let l = next_int tk in let pv = opt_of_tok (next tk) in let e = r_ext tk in
+    { m_lay = (match l with 0 -> LL | 1 -> LR | 2 -> LS | 3 -> LLP pv | _ -> LRP pv); m_ext = e } in
+  let r_acc tk = let k = next_int tk in let b = ni tk in let c = next_int tk in let id = ni tk in
+    let e = { el_base = b; el_const = (c <> 0) } in if k = 0 then ADefault e else AUser (e, id) in
+  let r_mds tk = let m = r_map tk in let a = r_acc tk in { md_map = m; md_acc = a } in
+  let r_arg tk = match next_int tk with 0 -> AInt (ity_of_nat (ni tk)) | 1 -> AFloat | 2 -> AClassNt | 3 -> AClassThrow | _ -> ANone in
+  let r_args tk = let n = next_int tk in take_n tk n r_arg in
+  let r_desc tk = match next_int tk with 0 -> QE (r_ext tk) | 1 -> QM (r_map tk) | 2 -> QA (r_acc tk) | _ -> QD (r_mds tk) in
+  let q = match next_int tk with
+    | 0 -> let s = r_desc tk in let d = r_desc tk in QPair (s, d)
+    | 1 -> let e = r_ext tk in QExtPack (e, r_args tk)
+    | 2 -> let e = r_ext tk in let a = r_arg tk in QExtArr (e, a, ni tk)
+    | 3 -> let m = r_mds tk in QMdsPack (m, r_args tk)
+    | 4 -> let m = r_mds tk in let a = r_arg tk in QMdsArr (m, a, ni tk)
+    | 5 -> QMdsParts (r_mds tk)
+    | 6 -> let m = r_mds tk in QCall (m, r_args tk)
+    | _ -> let m = r_mds tk in let a = r_arg tk in QIndexArr (m, a, ni tk) in
+  Printf.printf "Q %d %s\n" caseno (pr_transcript ["r17"; "r20"] (q_query q))
+
 (* family X: prog kind ... *)
 let run_X caseno tk =
   let _prog = next_int tk in
@@ -262,6 +286,7 @@ let () =
           | "R" -> run_R !caseno tk
           | "T" -> run_T !caseno tk
           | "L" -> run_L !caseno tk
+          | "Q" -> run_Q !caseno tk
           | f -> Printf.printf "%s %d unknown-family\n" f !caseno);
          incr caseno
        end
